@@ -7,13 +7,13 @@ use crate::{
         logger::{Abort, Alter, Begin, Commit, Create, Delete, DropOp, End, Insert, Operation, Update},
         pager::{BtreeBuilder, SharedPager},
     },
-    multithreading::coordinator::{Snapshot, TransactionHandle},
+    multithreading::coordinator::{Snapshot, TransactionCoordinator, TransactionHandle},
     schema::catalog::SharedCatalog,
     tree::{
         accessor::{BtreeReadAccessor, BtreeWriteAccessor},
         bplustree::Btree,
     },
-    types::{ObjectId, PageId, RowId, TransactionId},
+    types::{LogicalId, ObjectId, PageId, RowId, TransactionId},
 };
 use std::sync::{
     Arc,
@@ -27,6 +27,8 @@ pub(crate) struct ThreadContext {
     catalog: SharedCatalog,
     tid: TransactionId,
     snapshot: Snapshot,
+    /// Where the transaction's writes are recorded for the validation at commit.
+    coordinator: Option<TransactionCoordinator>,
 }
 
 impl ThreadContext {
@@ -41,7 +43,22 @@ impl ThreadContext {
             snapshot,
             pager,
             catalog,
+            coordinator: None,
         }
+    }
+
+    pub(crate) fn with_coordinator(mut self, coordinator: Option<TransactionCoordinator>) -> Self {
+        self.coordinator = coordinator;
+        self
+    }
+
+    /// Adds a row to the transaction's write set: commit is refused if another transaction that
+    /// committed after this one began wrote the same row (first committer wins).
+    pub(crate) fn record_write(&self, table: ObjectId, row: RowId) -> RuntimeResult<()> {
+        if let Some(coordinator) = &self.coordinator {
+            coordinator.record_write(self.tid, LogicalId::new(table, row), 0)?;
+        }
+        Ok(())
     }
 
     pub(crate) fn pager(&self) -> &SharedPager {
@@ -255,7 +272,8 @@ impl TransactionContext {
             self.snapshot(),
             self.pager().clone(),
             self.catalog().clone(),
-        ))
+        )
+        .with_coordinator(self.handle.read().coordinator()))
     }
 
     pub(crate) fn tid(&self) -> TransactionId {
